@@ -367,6 +367,68 @@ def shown_diff(rows, shown):
     return out
 
 
+# ----------------------------------------------------------------------------
+# controlled clock: the verdict must not depend on the wall-clock instant of a poll.  The engine stamps every
+# mark_submitted / mark_running / mark_end with round_datetime_seconds(datetime.now()), `datetime` being the name
+# maestrowf.datastructures.core.executiongraph imported.  run_history(clock=spec) replaces that name (and the
+# conductor module's) for the duration of the history by a datetime subclass whose now() returns scripted instants:
+#   spec = {"start": ISO instant of poll 0, "poll_s": seconds between the starts of consecutive polls,
+#           "tick_us": microseconds the clock advances per now() call inside a poll}
+# Nothing else about the history changes, so correspondence and monitors must hold exactly as with the real clock.
+# CLOCK_POLICY: optional callable() -> spec or None, consulted for generated (not scripted) histories when no
+# clock is passed; a history's clock is stored in case["clock"] and travels with its poll inputs (pins_of puts it
+# on the first pin), so corpus files and replays re-create it.
+# ----------------------------------------------------------------------------
+import datetime as _dt
+
+CLOCK_POLICY = None
+_CLOCK = {"cur": None, "tick": _dt.timedelta(0), "calls": 0, "edge": 0}
+
+
+class ScriptedDatetime(_dt.datetime):
+    """`datetime` as the engine sees it under a controlled clock: now() = the scripted instant (a plain datetime)."""
+
+    @classmethod
+    def now(cls, tz=None):
+        t = _CLOCK["cur"]
+        _CLOCK["cur"] = t + _CLOCK["tick"]
+        _CLOCK["calls"] += 1
+        _CLOCK["edge"] += t.second == 59 and t.microsecond >= 500000     # rounding carries into the next minute
+        return t
+
+    @classmethod
+    def utcnow(cls):
+        return cls.now()
+
+
+def clock_stats():
+    """(number of now() calls answered by the controlled clock, how many of them fell into hh:mm:59.5 .. 59.999999)"""
+    return _CLOCK["calls"], _CLOCK["edge"]
+
+
+def clock_instant(spec, k):
+    """the instant at which poll k of a history under clock `spec` starts"""
+    return _dt.datetime.fromisoformat(spec["start"]) + _dt.timedelta(seconds=spec.get("poll_s", 0) * k)
+
+
+def _clock_install(spec):
+    import maestrowf.conductor as cm
+    import maestrowf.datastructures.core.executiongraph as eg
+    saved = (eg.datetime, cm.datetime)
+    _CLOCK["cur"] = clock_instant(spec, 0)
+    _CLOCK["tick"] = _dt.timedelta(microseconds=spec.get("tick_us", 0))
+    eg.datetime = ScriptedDatetime
+    cm.datetime = ScriptedDatetime
+    return saved
+
+
+def _clock_restore(saved):
+    import maestrowf.conductor as cm
+    import maestrowf.datastructures.core.executiongraph as eg
+    eg.datetime, cm.datetime = saved
+    _CLOCK["cur"] = None
+
+
 class _StopHistory(Exception):
     pass
 
@@ -422,7 +484,8 @@ def _drive_conductor(dag, case, root, make_pin, record):
 
 def run_history(nodes, cfg, rng, profile="mixed", max_polls=14, cancel_p=0.04, qerr_p=0.015, qnojobs_p=0.06,
                 sub_ok_p=0.85, fair_after=None, scripted_pins=None, root=None, fair_bound=None,
-                after_poll=None, chooser=None, enum=None, via_conductor=False, shown=None, staged=None):
+                after_poll=None, chooser=None, enum=None, via_conductor=False, shown=None, staged=None,
+                clock=None):
     """Run one history against the real ExecutionGraph.  Returns a case dict:
     nodes, cfg, polls=[{pin..., events, rows, status}], end = 'final'|'running'|'exc'."""
     global CTX
@@ -435,6 +498,13 @@ def run_history(nodes, cfg, rng, profile="mixed", max_polls=14, cancel_p=0.04, q
     c.chooser, c.enum = chooser, enum
     CTX = c
     case = {"nodes": nodes, "cfg": cfg, "profile": profile, "polls": [], "end": "running"}
+    if clock is None:
+        if scripted_pins is not None:
+            clock = scripted_pins[0].get("clock") if scripted_pins else None
+        elif CLOCK_POLICY is not None:
+            clock = CLOCK_POLICY()
+    if clock:
+        case["clock"] = clock
     try:
         dag = build_dag(nodes, cfg, root) if staged is None else staged_dag(c, staged, root)
     except Exception as e:
@@ -469,6 +539,8 @@ def run_history(nodes, cfg, rng, profile="mixed", max_polls=14, cancel_p=0.04, q
             if cancel:
                 pin["cancel_ok"] = rng.random() < 0.7
         state["cancelled_once"] = state["cancelled_once"] or pin["cancel"]
+        if clock:
+            _CLOCK["cur"] = clock_instant(clock, k)
         c.pin = pin
         c.subs = list(pin["subs"])
         c.events = []
@@ -497,23 +569,28 @@ def run_history(nodes, cfg, rng, profile="mixed", max_polls=14, cancel_p=0.04, q
             state["limit"] = fair_bound
         return state["k"] < state["limit"]
 
-    if via_conductor:
-        _drive_conductor(dag, case, root, make_pin, record)
-    else:
-        while state["k"] < state["limit"]:
-            pin = make_pin()
-            status = None
-            try:
-                if pin["cancel"]:
-                    dag.cancel_study()
-                status = dag.execute_ready_steps().name
-            except RuntimeError as e:
-                status = "ABORT" if "Job status check failed" in str(e) else "EXC:RuntimeError"
-            except Exception as e:
-                status = "EXC:" + type(e).__name__
-                case["exc"] = repr(e)[:300]
-            if not record(pin, status):
-                break
+    saved_clock = _clock_install(clock) if clock else None
+    try:
+        if via_conductor:
+            _drive_conductor(dag, case, root, make_pin, record)
+        else:
+            while state["k"] < state["limit"]:
+                pin = make_pin()
+                status = None
+                try:
+                    if pin["cancel"]:
+                        dag.cancel_study()
+                    status = dag.execute_ready_steps().name
+                except RuntimeError as e:
+                    status = "ABORT" if "Job status check failed" in str(e) else "EXC:RuntimeError"
+                except Exception as e:
+                    status = "EXC:" + type(e).__name__
+                    case["exc"] = repr(e)[:300]
+                if not record(pin, status):
+                    break
+    finally:
+        if saved_clock:
+            _clock_restore(saved_clock)
     try:
         dag.cleanup()
     except Exception:
@@ -582,5 +659,8 @@ HEADER = "From MWF Require Import Exec.ExecBase Exec.ExecGen Exec.ExecRun Exec.E
 
 
 def pins_of(case):
-    return [dict({"cancel": p["cancel"], "q": p["q"], "reports": p["reports"], "subs": p["subs"]},
+    pins = [dict({"cancel": p["cancel"], "q": p["q"], "reports": p["reports"], "subs": p["subs"]},
                  **({"cancel_ok": False} if not p.get("cancel_ok", True) else {})) for p in case["polls"]]
+    if case.get("clock") and pins:
+        pins[0]["clock"] = case["clock"]       # the controlled clock of the history travels with its poll inputs
+    return pins
